@@ -564,6 +564,10 @@ fn remove_siblings(p: &std::path::Path) {
 /// the bytes `save()` writes
 fn image_of(g: &AnyG) -> Result<Vec<u8>, String> {
     let p = tmp_path("save");
+    // a save() that fails first (the directory does not exist): whatever it leaves behind in the process must not leak
+    // into the next image
+    let nowhere = p.with_extension("nodir").join("g.bin");
+    let _ = with_g!(g, x => x.save(&nowhere).map_err(|e| e.to_string()));
     // the path already holds a longer file: "the file written by save()" must be the new image and nothing else
     std::fs::write(&p, vec![0xABu8; 256 * 1024]).map_err(|e| e.to_string())?;
     with_g!(g, x => x.save(&p).map_err(|e| e.to_string()))?;
@@ -581,6 +585,9 @@ fn image_of(g: &AnyG) -> Result<Vec<u8>, String> {
 /// `load()` of the given bytes, into the same `N` as `like`
 fn load_like(like: &AnyG, bytes: &[u8]) -> Result<AnyG, String> {
     let p = tmp_path("load");
+    // a load() that fails first (no such file)
+    let nowhere = p.with_extension("nofile");
+    let _ = map_g_res!(like, x => { let _ = x; Sodg::load(&nowhere).map_err(|e| e.to_string()) });
     std::fs::write(&p, bytes).map_err(|e| e.to_string())?;
     let r = map_g_res!(like, x => { let _ = x; Sodg::load(&p).map_err(|e| e.to_string()) });
     let _ = std::fs::remove_file(&p);
